@@ -38,14 +38,14 @@ def one_re(acc, spec):
     check_re(acc, tup(spec))
 
 
-def check_dfa(acc, spec, depth, scheme='s', only=None):
+def check_dfa(acc, spec, depth, scheme='s', only=None, letters='ab'):
     from gambatools.regexp_algorithms import dfa_to_regexp
-    A = common.ref_of_dfa_spec(spec, scheme)
+    A = common.ref_of_dfa_spec(spec, scheme, letters)
 
     def execute(boost, native=False):
-        rp = {'fn': 'mc.props.c06:one_dfa', 'mode': 'instr', 'params': {'spec': spec, 'scheme': scheme, 'boost': list(boost), 'native': native}}
-        inst = {'dfa': spec, 'scheme': scheme, 'schedule': 'native' if native else {'boost': list(boost)}}
-        D = spaces.build_dfa(spec, scheme)
+        rp = {'fn': 'mc.props.c06:one_dfa', 'mode': 'instr', 'params': {'spec': spec, 'scheme': scheme, 'boost': list(boost), 'native': native, 'letters': letters}}
+        inst = {'dfa': spec, 'scheme': scheme, 'alphabet': letters, 'schedule': 'native' if native else {'boost': list(boost)}}
+        D = spaces.build_dfa(spec, scheme, letters)
         before = common.snap_dfa(D)
         st, r = common.sched_call(acc, 'dfa_to_regexp', inst, dfa_to_regexp, D, boost=boost, native=native, rp=rp)
         if st != 'ok':
@@ -75,14 +75,14 @@ def check_dfa(acc, spec, depth, scheme='s', only=None):
     if 0 < len(A.F) and len(fa.reachable(A)) >= 2:
         acc.nontrivial += 1
         if len(A.Q) >= 3:
-            acc.sample({'dfa': spaces.dfa_parts(spec, scheme)})
+            acc.sample({'dfa': spaces.dfa_parts(spec, scheme, letters)})
     execute((), native=True)
     acc.transitions += 1
     common.explore(acc, execute, depth)
 
 
-def one_dfa(acc, spec, scheme, boost=(), native=False):
-    check_dfa(acc, spec, 0, scheme, only=(boost, native))
+def one_dfa(acc, spec, scheme, boost=(), native=False, letters='ab'):
+    check_dfa(acc, spec, 0, scheme, only=(boost, native), letters=letters)
 
 
 def t_re(acc, m, shard, nshard, lo=0):
@@ -91,9 +91,9 @@ def t_re(acc, m, shard, nshard, lo=0):
             check_re(acc, spec)
 
 
-def t_dfa(acc, n, k, depth, shard, nshard, scheme='s', stride=1, offset=0):
+def t_dfa(acc, n, k, depth, shard, nshard, scheme='s', stride=1, offset=0, letters='ab'):
     for idx in range((offset % stride) + shard * stride, spaces.dfa_size(n, k), nshard * stride):
-        check_dfa(acc, spaces.dfa_spec(n, k, idx), depth, scheme)
+        check_dfa(acc, spaces.dfa_spec(n, k, idx), depth, scheme, letters=letters)
 
 
 def plan(tier, seed):
@@ -102,26 +102,31 @@ def plan(tier, seed):
     def re(m, ns, lo=0):
         tasks.extend(('plain', 'mc.props.c06:t_re', {'m': m, 'shard': s, 'nshard': ns, 'lo': lo}) for s in range(ns))
 
-    def dfa(n, k, depth, ns, scheme='s', stride=1):
-        tasks.extend(('instr', 'mc.props.c06:t_dfa', {'n': n, 'k': k, 'depth': depth, 'shard': s, 'nshard': ns, 'scheme': scheme, 'stride': stride, 'offset': seed}) for s in range(ns))
+    def dfa(n, k, depth, ns, scheme='s', stride=1, letters='ab'):
+        tasks.extend(('instr', 'mc.props.c06:t_dfa', {'n': n, 'k': k, 'depth': depth, 'shard': s, 'nshard': ns, 'scheme': scheme, 'stride': stride, 'offset': seed, 'letters': letters}) for s in range(ns))
 
     for (n, k) in ((1, 0), (2, 0), (1, 1), (1, 2), (2, 1), (2, 2)):
         dfa(n, k, 2, 1)
     dfa(2, 1, 1, 1, 'x')
     dfa(2, 2, 1, 1, 'q')
+    for (n, k) in ((1, 1), (1, 2), (2, 1), (2, 2)):
+        dfa(n, k, 1, 1, letters='01')
+    dfa(3, 1, 1, 2, letters='01')
     if tier == 'quick':
-        re(6, 16)
+        re(8, 48)
         dfa(3, 1, 2, 4)
-        dfa(3, 2, 1, 32, stride=2)
+        dfa(3, 2, 1, 32)
+        dfa(3, 2, 0, 8, stride=8, letters='01')
         dfa(4, 1, 1, 16, stride=16)
-        bounds = 'RE(6) -> NFA; DFA(n<=2,k<=2), DFA(3,1) d<=2; DFA(3,2) stride 1/2 d<=1; DFA(4,1) stride 1/16 d<=1; name schemes s, q, start/accept'
+        bounds = 'RE(8) -> NFA (112 416 trees); DFA(n<=2,k<=2), DFA(3,1) d<=2; DFA(3,2) d<=1; alphabets {a,b} and {0,1} (digit symbols print like the constants 0 and 1); DFA(4,1) stride 1/16 d<=1; name schemes s, q, start/accept'
     else:
-        re(7, 64)
+        re(9, 256)
+        dfa(3, 2, 1, 32, letters='01')
         dfa(3, 1, 2, 8)
         dfa(3, 2, 2, 64)
         dfa(4, 1, 1, 64)
         dfa(3, 1, 1, 4, 'x')
-        bounds = 'RE(7) -> NFA; DFA(n<=3,k<=2) d<=2; DFA(4,1) d<=1; name schemes s, q, start/accept'
+        bounds = 'RE(9) -> NFA (665 252 trees); alphabets {a,b} and {0,1}; DFA(n<=3,k<=2) d<=2; DFA(4,1) d<=1; name schemes s, q, start/accept'
     return {'tasks': tasks, 'bounds': {'spaces': bounds}, 'exhaustive': True,
             'rule': 'every expression tree with <= m nodes (regexp_to_nfa vs Glushkov automaton, exact); every labelled DFA in the bounds x every state-elimination order reachable with <= d set-order deviations + CPython order (dfa_to_regexp vs the DFA, exact); non-trivial = expression with symbols and >= 4 nodes / DFA with F non-empty and >= 2 reachable states',
             'assumptions': ['set order = global order per execution (DESIGN 3.4)']}
